@@ -13,6 +13,10 @@ theorem no_map_range : Gen.jwtRangesOverMap = false := by decide
 theorem null_rejected : Gen.jwtNullRejected = true := by decide
 theorem numeric_dates_handled : Gen.jwtNumericDates = true := by decide
 theorem empty_shown : Gen.jwtEmptyShown = true := by decide
+/-- the guard of `unixTime`: seconds of magnitude below 2^62 are turned into dates (every instant Go's `time.Time` can
+    hold without wrapping lies in that range, and an exactly parsed JSON number has no 2^53 limit) -/
+theorem date_bound : Gen.jwtDateBoundLog2 = 62 := by decide
+theorem date_string_fallback : Gen.jwtDateStringFallback = true := by decide
 
 /-- TABLES: every displayed name is a table entry, listed once; descriptions are pairwise distinct (so an
     attribute identifies its field); the twelve RFC 7518 algorithms have long names ending in "(<alg>)". -/
@@ -60,10 +64,24 @@ theorem alg_readback (m : List (Bytes × JVal)) (descr : String) (s : Bytes)
 
 /-- NUMERIC DATES: exp / nbf / iat given as JSON numbers are shown as the UTC second they denote -/
 theorem numeric_dates (order : List String) (m : List (Bytes × JVal)) (k descr : String) (n : Int)
+    (hr : n.natAbs < 2 ^ 62)
     (hk : k ∈ order) (hp : paramOf k = some (descr, "unixTime"))
     (hv : m.lookup (k.toList.map Char.toNat) = some (.num n)) :
     (⟨descr.toList.map Char.toNat, Civil.fmtDateTime n⟩ : Attr) ∈ attributesOfIn order m :=
-  Lemmas.Jwt.numeric_dates numeric_dates_handled order m k descr n hk hp hv
+  Lemmas.Jwt.numeric_dates numeric_dates_handled order m k descr n
+    (by simp only [inDateRange, date_bound]; exact decide_eq_true hr) hk hp hv
+
+/-- DATE NAMES WITH A STRING VALUE: `exp` / `nbf` / `iat` given as a string are shown with that string — or, when the
+    string spells a decimal second count in range, as that date; never dropped -/
+theorem date_strings (order : List String) (m : List (Bytes × JVal)) (k descr : String) (s : Bytes)
+    (hk : k ∈ order) (hp : paramOf k = some (descr, "unixTime"))
+    (hv : m.lookup (k.toList.map Char.toNat) = some (.str s)) :
+    (⟨descr.toList.map Char.toNat, s⟩ : Attr) ∈ attributesOfIn order m ∨
+      ∃ i, atoi s = some i ∧ i.natAbs < 2 ^ 62 ∧
+        (⟨descr.toList.map Char.toNat, Civil.fmtDateTime i⟩ : Attr) ∈ attributesOfIn order m := by
+  rcases Lemmas.Jwt.date_strings empty_shown date_string_fallback order m k descr s hk hp hv with h | ⟨i, hi, hr, h⟩
+  · exact Or.inl h
+  · exact Or.inr ⟨i, hi, by simpa [inDateRange, date_bound] using hr, h⟩
 
 /-- ABSENT ⇒ NOT SHOWN: every attribute comes from a registered name that is present in the object -/
 theorem absent_not_shown (order : List String) (m : List (Bytes × JVal)) (a : Attr) (ha : a ∈ attributesOfIn order m) :
